@@ -31,7 +31,7 @@ def plant(t, rng, tg, n):
         if k == "unknown":
             tgt[8].insert(rng.randint(0, len(tgt[8])), impl.T(rng.choice(["zzUnknown", "bogus"]), "x", [impl.T("surName", "y")]))
         elif k == "misplaced":
-            e = rng.choice(known)
+            e = rng.choice(known) if rng.random() < 0.85 else "metadata"
             tgt[8].insert(rng.randint(0, len(tgt[8])), tg.min_tree(e, rng))
         elif k == "double":
             tgt[8].insert(0, impl.T("zzUnknown"))
